@@ -120,9 +120,11 @@ COMPONENTS.update(
         "alloc": ((Ref,), B), "lalloc": ((LRef,), B), "dalloc": ((DRef,), B),
         # ghost witnesses (never written by code; (re)defined at contract boundaries)
         "pos": ((Ref,), I), "rank": ((Ref,), I), "cpos": ((Ref,), I),
+        # ghost re-entrancy depth of the current thread per lock object (C18)
+        "held": ((Ref,), I),
     }
 )
-GHOST = ("pos", "rank", "cpos")
+GHOST = ("pos", "rank", "cpos", "held")
 
 
 class Heap:
@@ -341,6 +343,32 @@ def anc_chain(h: Heap):
 def is_desc(h: Heap, x, a):
     """x is a direct or indirect child of the (non-root) node a."""
     return anc_chain(h)(h._parent(x), a)
+
+
+_PRE: dict = {}
+
+
+def pre_post(h: Heap):
+    """Recursive spec sequences of the depth-first orders over the child lists of heap h:
+         PreL(n,0) = []            PreL(n,i+1) = PreL(n,i) ++ [child(n,i)] ++ Pre(child(n,i))
+         PostL(n,0) = []           PostL(n,i+1) = PostL(n,i) ++ Post(child(n,i)) ++ [child(n,i)]
+         Pre(n) = PreL(n, clen(n)) Post(n) = PostL(n, clen(n))"""
+    key = (h.syms["_children"].name(), h.syms["llen"].name(), h.syms["litem"].name())
+    if key not in _PRE:
+        k = len(_PRE)
+        Pre, PreL = Function(f"Pre<{k}>", Ref, PSeq), Function(f"PreL<{k}>", Ref, I, PSeq)
+        Post, PostL = Function(f"Post<{k}>", Ref, PSeq), Function(f"PostL<{k}>", Ref, I, PSeq)
+        n, i = Const(f"n!pre{k}", Ref), Const(f"i!pre{k}", I)
+        SPEC_AXIOMS.extend([
+            ForAll([n], PreL(n, 0) == Empty, patterns=[PreL(n, 0)]),
+            ForAll([n, i], Implies(And(0 <= i, i < h.clen(n)), PreL(n, i + 1) == App(App(PreL(n, i), Single(h.child(n, i))), Pre(h.child(n, i)))), patterns=[PreL(n, i)]),
+            ForAll([n], Pre(n) == PreL(n, h.clen(n)), patterns=[Pre(n)]),
+            ForAll([n], PostL(n, 0) == Empty, patterns=[PostL(n, 0)]),
+            ForAll([n, i], Implies(And(0 <= i, i < h.clen(n)), PostL(n, i + 1) == App(App(PostL(n, i), Post(h.child(n, i))), Single(h.child(n, i)))), patterns=[PostL(n, i)]),
+            ForAll([n], Post(n) == PostL(n, h.clen(n)), patterns=[Post(n)]),
+        ])
+        _PRE[key] = (Pre, PreL, Post, PostL)
+    return _PRE[key]
 
 
 def prelude():
